@@ -25,7 +25,7 @@
 From Coq Require Import String List ZArith NArith Bool.
 From Nexus Require Import Safety.Values Safety.Accessors Safety.AccessorProofs Safety.FuelProofs.
 From Nexus Require Import Safety.Sites Safety.SiteProofs Safety.Close Safety.CloseProofs.
-From Nexus Require Import Safety.Policy Safety.PolicyProofs Safety.Conformance.
+From Nexus Require Import Safety.Policy Safety.PolicyProofs Safety.Locks Safety.LockProofs Safety.Conformance.
 From Nexus Require Import gen.GenC04Sites.
 Import ListNotations.
 
@@ -156,6 +156,28 @@ Theorem policy_denylist_refuted :
   forall set cases, exists p, call_panics cases (prun ShareNotIn set [PRegister p; PRegister p]) = true.
 Proof. exact policy_refuted_notin. Qed.
 Print Assumptions policy_denylist_refuted.
+
+(* ---- session details: lock discipline (lockset criterion) ---- *)
+
+(* Over the regenerated inventory: the uses of a session's details that can
+   overlap the writer (wamp.session.modify_details / an Authorizer, under the
+   session's own lock) all hold that lock, hence no two accesses conflict,
+   whatever goroutine the writer runs in.  What the lockset criterion does not
+   see (accesses outside the inventory, the after-removal ordering through the
+   realm goroutine) is sampled by the -race streams. *)
+Theorem session_details_race_free :
+  forall owner other g,
+    race_free (accesses_of owner other gen_details_states
+                 {| a_goroutine := g; a_write := true; a_locks := [owner] |}) = true.
+Proof. exact (fun owner other g => details_discipline owner other gen_details_states g details_table_ok). Qed.
+Print Assumptions session_details_race_free.
+
+Theorem details_wrong_lock_refuted :
+  forall owner other, owner <> other ->
+    race_free [ {| a_goroutine := 0; a_write := true; a_locks := [owner] |};
+                {| a_goroutine := 1; a_write := false; a_locks := locks_of owner other LSWrongLock |} ] = false.
+Proof. exact wrong_lock_races. Qed.
+Print Assumptions details_wrong_lock_refuted.
 
 (* ---- the property, as far as the model carries it ---- *)
 
